@@ -75,7 +75,7 @@ CHECKS["C11"] = dict(
 
 CHECKS["C12"] = dict(
     category="model_checking", design_ref="DESIGN.md §7 C12",
-    technique="TLA+ model of the paged writer (Paging.tla: Recv / FlushFull / FlushFinal) checked exhaustively by TLC; observations of a real TargetGeopackage (row counts after every send via a second SQLite connection, final rows/rtree/extent/schema) validated against PagingTrace.tla",
+    technique="TLA+ model of the paged writer (Paging.tla: Recv / FlushFull / FlushFinal) checked exhaustively by TLC; observations of a real TargetGeopackage (row counts after every send via a second SQLite connection, final rows/rtree/extent/schema) validated against PagingTrace.tla; Apalache proves the inductive invariant of the counting skeleton (PagingInt.tla, refined by Paging.tla) for every page size and feature count",
     text="Design: all page sizes 1..4 x counts 0..13 x empty-geometry subsets (conservation, pages full, completeness, termination). Code: for every page size 1..5 (1..12 thorough) and every count 0..3P+1 a random source table (polygon / multipolygon / point / linestring / multipoint / multilinestring, empty geometries, NULL attribute values, a spatial reference system whose id differs from its organisation code) is read by the real SourceGeopackage and written by the real TargetGeopackage; the observation sequence must be a behaviour of the specification, whose final guard demands one row per feature in order with intact values, the exact spatial-index id set, the exact integer extent and matching schema metadata.",
     note="Trusted: TLC; the verif-tagged SQLite stub for libspatialite; DeepEqual comparison of values/geometries in the harness; SQLite itself.")
 
